@@ -40,6 +40,9 @@ def main():
         if prop in ("C05", "C18"):
             import check_prog
             return check_prog.check_routing(prop, tier, seed, replay)
+        if prop in ("C16", "C17"):
+            import check_gen
+            return check_gen.check(prop, tier, seed, replay)
         print("no check for", prop)
         return 2
     except vlib.Infra as e:
